@@ -29,10 +29,10 @@ PAIRS = [(g, h) for i, g in enumerate(GROUPS) for h in GROUPS[i + 1:]]
 def plan(tier):
     if tier == 'quick':
         return [(1, ('plain',), 'RBWNX', 2, True), (2, ('plain', 'rainbow'), 'RBWN', 2, True),
-                (3, ('plain',), 'RWNT', 2, False), (3, ('rainbow',), 'BUD', 1, True), (2, ('plain',), 'UDXTZ', 2, False), (3, ('parsed',), 'RW', 2, True), (2, ('plain',), 'WN', 3, False), (2, ('plain',), 'RB', 3, False), (3, ('dup1', 'dup2'), 'RW', 1, False), (4, ('rs1', 'rs2'), 'RBW', 1, False), (2, ('wide', 'wide2'), 'RW', 1, False), (3, ('plain',), 'Wyq', 2, False)]
+                (3, ('plain',), 'RWNT', 2, False), (3, ('rainbow',), 'BUD', 1, True), (2, ('plain',), 'UDXTZ', 2, False), (3, ('parsed',), 'RW', 2, True), (2, ('plain',), 'WN', 3, False), (2, ('plain',), 'RB', 3, False), (3, ('dup1', 'dup2'), 'RW', 1, False), (4, ('rs1', 'rs2'), 'RBW', 1, False), (2, ('wide', 'wide2'), 'RW', 1, False), (3, ('plain',), 'Wyq', 2, False), (4, ('pairs',), 'R', 0, False), (3, ('tri', 'trix', 'triw'), 'R', 0, False)]
     return [(1, ('plain',), 'RBWNXZ', 3, True), (2, ('plain', 'rainbow'), 'RBWNX', 2, True), (2, ('plain',), 'RWN', 3, True),
             (3, ('plain', 'rainbow'), 'RBWNT', 2, True), (3, ('plain',), 'RWN', 3, False), (2, ('plain',), 'UDXTZ', 2, True),
-            (4, ('plain', 'rainbow'), 'RWN', 2, False), (3, ('parsed',), 'RBWN', 2, True), (4, ('parsed',), 'RW', 2, False), (3, ('dup1', 'dup2'), 'RW', 1, False), (4, ('rs1', 'rs2'), 'RBW', 2, False), (2, ('wide', 'wide2'), 'RW', 2, False), (3, ('wide',), 'RW', 1, False), (3, ('plain', 'rainbow'), 'WNyq', 2, False), (2, ('plain',), 'Wyq', 3, False)]
+            (4, ('plain', 'rainbow'), 'RWN', 2, False), (3, ('parsed',), 'RBWN', 2, True), (4, ('parsed',), 'RW', 2, False), (3, ('dup1', 'dup2'), 'RW', 1, False), (4, ('rs1', 'rs2'), 'RBW', 2, False), (2, ('wide', 'wide2'), 'RW', 2, False), (3, ('wide',), 'RW', 1, False), (3, ('plain', 'rainbow'), 'WNyq', 2, False), (2, ('plain',), 'Wyq', 3, False), (5, ('pairs',), 'R', 0, False), (4, ('tri', 'trix', 'triw'), 'R', 0, False), (3, ('tri', 'trix', 'triw'), 'RW', 1, False)]
 
 
 def tasks(tier, seed):
@@ -40,6 +40,9 @@ def tasks(tier, seed):
     for i, (g, h) in enumerate(PAIRS):
         out.append({'kind': 'bridge', 'g': g, 'h': h})
     out.append({'kind': 'bridge1'})
+    for grp in SIMILAR:
+        for part in range(4):
+            out.append({'kind': 'similar', 'grp': grp, 'part': part})
     return out
 
 
@@ -50,6 +53,46 @@ def complete_groups(code):
         return False
     groups, _st, amb, dropped = rt.ref_groups(code)
     return bool(groups) and not amb and not dropped
+
+
+def _sim_colour(intro):
+    """Values of one colour group that differ only a little: 256-colour indices and rgb components over digits that an
+    over-eager normalisation could conflate (trailing / leading zeros, powers of ten), plus the 16 plain codes."""
+    base = {'38': list(range(30, 38)) + list(range(90, 98)), '48': list(range(40, 48)) + list(range(100, 108)), '58': []}[intro]
+    vals = [str(c) for c in base]
+    vals += ['%s;5;%d' % (intro, n) for n in (0, 1, 10, 100, 2, 20, 200, 25, 250, 255, 16)]
+    comps = (0, 1, 10, 100)
+    vals += ['%s;2;%d;%d;%d' % (intro, r, g, b) for r in comps for g in comps for b in comps]
+    return vals
+
+
+# within-group neighbours: every ordered pair of these values on two adjacent characters
+SIMILAR = {
+    'fg': _sim_colour('38'), 'bg': _sim_colour('48'), 'ulc': _sim_colour('58'),
+    'font': [str(c) for c in range(10, 21)],
+    'misc': ['1', '2', '22', '4', '21', '24', '5', '6', '25', '51', '52', '54', '53', '55', '26', '50', '73', '74', '75'],
+}
+
+
+def similar_cases(grp, part):
+    vals = SIMILAR[grp]
+    for i, a in enumerate(vals):
+        if i % 4 != part:
+            continue
+        for b in vals:
+            if a == b:
+                continue
+            for ballast in ([], ['3']):
+                yield {'kind': 'similar', 'a': a, 'b': b, 'ballast': ballast}
+
+
+def build_similar(case):
+    v = AnsiString('ab')
+    for b in case['ballast']:
+        v.apply_formatting(AnsiSetting(b), 0, 2)
+    v.apply_formatting(AnsiSetting(case['a']), 0, 1)
+    v.apply_formatting(AnsiSetting(case['b']), 1, 2)
+    return v
 
 
 def values_of(g):
@@ -143,6 +186,25 @@ def run_task(task, acc):
             acc.outcome((v.to_str(), v.to_str(optimize=False)))
             acc.sample(case)
         return
+    if task.get('kind') == 'similar':
+        for case in similar_cases(task['grp'], task['part']):
+            acc.current = case
+            v = build_similar(case)
+            acc.state_count += 1
+            acc.evaluations += 1
+            acc.transitions += 19
+            cells = model.alpha_codes(v)[1]
+            if any(not complete_groups(c) for cell in cells for c in cell):
+                acc.counters['skipped_not_wellformed'] += 1
+                continue
+            bad = check_value(v)
+            if not bad:
+                acc.validated += 19
+            for clause, detail in bad:
+                acc.violation(clause, case, detail, sig=clause)
+            acc.nontrivial_count += 1
+            acc.outcome((v.to_str(), v.to_str(optimize=False)))
+        return
     if task.get('kind') == 'bridge1':
         # single group alone, every pair of states, all ballasts
         for g in GROUPS:
@@ -183,6 +245,8 @@ def run_task(task, acc):
 
 
 def replay(case):
+    if case['kind'] == 'similar':
+        return check_value(build_similar(case))
     v = build_bridge(case) if case['kind'] == 'bridge' else build(case['hist'])
     return check_value(v)
 
